@@ -9,6 +9,7 @@ import (
 	"testing"
 
 	sdk "github.com/cosmos/cosmos-sdk/types"
+	"github.com/cosmos/cosmos-sdk/types/query"
 	"pgregory.net/rapid"
 
 	mtkeeper "mods.irisnet.org/modules/mt/keeper"
@@ -543,17 +544,28 @@ func (m *c15Machine) check() error {
 		}
 	}
 
-	lres, err := k.Denoms(ctx, &mttypes.QueryDenomsRequest{})
-	if err != nil {
-		return pbt.Failf("C15/denoms-query", "%v", err)
-	}
-	if len(lres.Denoms) != len(m.denoms) {
-		return pbt.Failf("C15/class-list", "Denoms lists %d classes, ledger %d", len(lres.Denoms), len(m.denoms))
-	}
-	for _, g := range lres.Denoms {
-		if m.byID[g.Id] == nil {
-			return pbt.Failf("C15/class-list", "Denoms lists unknown class %q", g.Id)
+	// list queries are followed page by page (histories can create more than one page of classes)
+	var listed []mttypes.Denom
+	for page := (*query.PageRequest)(nil); ; {
+		lres, err := k.Denoms(ctx, &mttypes.QueryDenomsRequest{Pagination: page})
+		if err != nil {
+			return pbt.Failf("C15/denoms-query", "%v", err)
 		}
+		listed = append(listed, lres.Denoms...)
+		if lres.Pagination == nil || len(lres.Pagination.NextKey) == 0 {
+			break
+		}
+		page = &query.PageRequest{Key: lres.Pagination.NextKey}
+	}
+	if len(listed) != len(m.denoms) {
+		return pbt.Failf("C15/class-list", "Denoms lists %d classes, ledger %d", len(listed), len(m.denoms))
+	}
+	seenDenom := map[string]bool{}
+	for _, g := range listed {
+		if m.byID[g.Id] == nil || seenDenom[g.Id] {
+			return pbt.Failf("C15/class-list", "Denoms lists unknown/duplicate class %q", g.Id)
+		}
+		seenDenom[g.Id] = true
 	}
 	for _, d := range m.denoms {
 		dres, err := k.Denom(ctx, &mttypes.QueryDenomRequest{DenomId: d.id})
@@ -567,15 +579,23 @@ func (m *c15Machine) check() error {
 		if n := k.GetDenomSupply(m.c.Ctx, d.id); n != uint64(len(d.mts)) {
 			return pbt.Failf("C15/class-token-count", "class %s counts %d tokens, ledger %d", d.id, n, len(d.mts))
 		}
-		mres, err := k.MTs(ctx, &mttypes.QueryMTsRequest{DenomId: d.id})
-		if err != nil {
-			return pbt.Failf("C15/mts-query", "%v", err)
+		var mts []mttypes.MT
+		for page := (*query.PageRequest)(nil); ; {
+			mres, err := k.MTs(ctx, &mttypes.QueryMTsRequest{DenomId: d.id, Pagination: page})
+			if err != nil {
+				return pbt.Failf("C15/mts-query", "%v", err)
+			}
+			mts = append(mts, mres.Mts...)
+			if mres.Pagination == nil || len(mres.Pagination.NextKey) == 0 {
+				break
+			}
+			page = &query.PageRequest{Key: mres.Pagination.NextKey}
 		}
-		if len(mres.Mts) != len(d.mts) {
-			return pbt.Failf("C15/token-list", "class %s lists %d tokens, ledger %d", d.id, len(mres.Mts), len(d.mts))
+		if len(mts) != len(d.mts) {
+			return pbt.Failf("C15/token-list", "class %s lists %d tokens, ledger %d", d.id, len(mts), len(d.mts))
 		}
 		seen := map[string]bool{}
-		for _, g := range mres.Mts {
+		for _, g := range mts {
 			t := d.mts[g.Id]
 			if t == nil || seen[g.Id] {
 				return pbt.Failf("C15/token-list", "class %s lists unknown/duplicate token %s", d.id, g.Id)
@@ -634,12 +654,20 @@ func (m *c15Machine) check() error {
 			if !touched[a] {
 				continue
 			}
-			bres, err := k.Balances(ctx, &mttypes.QueryBalancesRequest{Owner: a, DenomId: d.id})
-			if err != nil {
-				return pbt.Failf("C15/balances-query", "%v", err)
+			var bals []mttypes.Balance
+			for page := (*query.PageRequest)(nil); ; {
+				bres, err := k.Balances(ctx, &mttypes.QueryBalancesRequest{Owner: a, DenomId: d.id, Pagination: page})
+				if err != nil {
+					return pbt.Failf("C15/balances-query", "%v", err)
+				}
+				bals = append(bals, bres.Balance...)
+				if bres.Pagination == nil || len(bres.Pagination.NextKey) == 0 {
+					break
+				}
+				page = &query.PageRequest{Key: bres.Pagination.NextKey}
 			}
 			n := 0
-			for _, b := range bres.Balance {
+			for _, b := range bals {
 				t := d.mts[b.MtId]
 				if t == nil {
 					if b.Amount != 0 {
